@@ -189,6 +189,38 @@ impl crate::hist::Checker for SysPlan {
                 return;
             }
         }
+        // the same plan function distributes the stake of a removed validator (RemoveValidator, Redelegations)
+        if step.ok() {
+            if let ROp::RemoveVal { validator: src } | ROp::Redelegations { validator: src, .. } = &step.rop {
+                let mut plan: std::collections::BTreeMap<String, u128> = Default::default();
+                for e in step.evs() {
+                    if let Ev::Redelegate { delegator, src: s, dst, amount } = e {
+                        if delegator == HUB && s == src {
+                            *plan.entry(dst.clone()).or_default() += *amount;
+                        }
+                    }
+                }
+                let a: u128 = plan.values().sum();
+                let n = o1.registry.len() as u128;
+                if a > 0 && n > 0 && !o1.registry.contains(src) {
+                    let held = |val: &String| *o0.delegations.get(val).unwrap_or(&0);
+                    let t: u128 = o1.registry.iter().map(held).sum();
+                    let even = (t + a) / n;
+                    let ceil = even + if (t + a) % n != 0 { 1 } else { 0 };
+                    for (val, p) in &plan {
+                        let h = held(val);
+                        if *p > 0 && (h > even || h + p > ceil) {
+                            out.fail(v(
+                                "system/redelegation-plan",
+                                format!("{}: {} of {}'s stake goes to {} which held {}: even share of the remaining set {:?} is ({} + {}) / {} = {} (rounded up {})", step.desc(), p, src, val, h, o1.registry, t, a, n, even, ceil),
+                            ));
+                            return;
+                        }
+                    }
+                    self.seen = true;
+                }
+            }
+        }
         if !step.ok() || !matches!(step.rop, ROp::Bond { .. } | ROp::UpdateIndex { .. }) || o0.registry != o1.registry {
             return;
         }
